@@ -46,7 +46,8 @@ ASSUMPTIONS = [
 MUST_REACH = {"scenarios": 500, "hook_exceptions_raised": 100, "claims_observed": 100, "followups_delivered": 500,
               "ownership_sequences": 300, "illegal_reuse_rejected": 100, "subscriber_scenarios": 20, "predicate_scenarios": 8, "wait_for_scenarios": 4, "abandoned_wait_scenarios": 6, "rlv_scenarios": 6,
               "packet_hook_scenarios": 6, "object_hook_scenarios": 2, "script_addon_scenarios": 20, "script_addon_faults_survived": 18,
-              "script_addon_hook_runs": 20, "script_reloads_observed": 6}
+              "script_addon_hook_runs": 20, "script_reloads_observed": 6,
+              "script_addon_double_fault_scenarios": 10, "script_second_reloads_observed": 2}
 
 _ser = UDPMessageSerializer()
 _es = Settings()
@@ -439,7 +440,7 @@ addons = [ScriptAddon()]
 """
 
 
-def check_script_addons(ctx, fault, direction_in, reliable):
+def check_script_addons(ctx, fault, direction_in, reliable, second_fault=None):
     """One addon object plus one addon loaded from a script file that hot-reloads a helper module.  While traffic flows the
     files behind the script addon go bad in the ways files do (deleted, half-written, their directory gone, a symlink loop)
     and the periodic reload check runs before every message: whatever the reload makes of it, every message is still
@@ -472,7 +473,7 @@ def check_script_addons(ctx, fault, direction_in, reliable):
         return _SCRIPT_TMPL.format(deps=deps, dep=dep_name, version=version, hook_body=hook_body, unload_body=unload_body,
                                    init_body=init_body, module_level=module_level)
 
-    wit = {"fault": fault, "direction": "in" if direction_in else "out", "reliable": reliable}
+    wit = {"fault": fault, "second_fault": second_fault, "direction": "in" if direction_in else "out", "reliable": reliable}
     h = Harness(1)
     try:
         AddonManager.HOTRELOAD_IMPORTERS.clear()
@@ -515,44 +516,66 @@ def check_script_addons(ctx, fault, direction_in, reliable):
             ctx.inconclusive_because("script addon's hook never ran before the fault")
             return
         ctx.count("script_addon_hook_runs", len(builtins._hv_c07_script_log))
-        # ---- the fault
-        if fault == "dep_deleted":
-            os.remove(dep_path)
-        elif fault == "dep_dir_becomes_file":
-            shutil.rmtree(deps)
-            write(deps, "not a directory any more")
-        elif fault == "dep_symlink_loop":
-            os.remove(dep_path)
-            os.symlink(dep_path, dep_path)
-        elif fault == "dep_syntax_error":
-            write(dep_path, "def (:\n")
-        elif fault == "dep_raises_on_import":
-            write(dep_path, "raise RuntimeError('scripted import failure')\n")
-        elif fault == "script_deleted":
-            os.remove(script_path)
-        elif fault == "script_syntax_error":
-            write(script_path, "class (:\n")
-        elif fault == "script_raises_on_import":
-            write(script_path, script("v2", module_level="raise KeyError('scripted import failure')"))
-        elif fault == "script_hook_now_raises":
-            write(script_path, script("v2", hook_body="raise ValueError('scripted hook failure')"))
-        elif fault == "script_unload_raises":
-            write(script_path, script("v2"))
-        elif fault == "script_init_raises":
-            write(script_path, script("v2", init_body="raise ValueError('scripted init failure')"))
-        elif fault == "script_dir_becomes_file":
-            shutil.rmtree(script_dir)
-            write(script_dir, "not a directory any more")
+        # ---- the fault(s)
+        def apply_fault(f, ver):
+            if f == "dep_deleted":
+                if os.path.lexists(dep_path):
+                    os.remove(dep_path)
+            elif f == "dep_dir_becomes_file":
+                if os.path.isdir(deps):
+                    shutil.rmtree(deps)
+                    write(deps, "not a directory any more")
+            elif f == "dep_symlink_loop":
+                if os.path.isdir(deps):
+                    if os.path.lexists(dep_path):
+                        os.remove(dep_path)
+                    os.symlink(dep_path, dep_path)
+            elif f == "dep_syntax_error":
+                if os.path.isdir(deps) and not os.path.islink(dep_path):
+                    write(dep_path, "def (:\n")
+            elif f == "dep_raises_on_import":
+                if os.path.isdir(deps) and not os.path.islink(dep_path):
+                    write(dep_path, "raise RuntimeError('scripted import failure')\n")
+            elif f == "script_deleted":
+                if os.path.isdir(script_dir) and os.path.exists(script_path):
+                    os.remove(script_path)
+            elif f == "script_dir_becomes_file":
+                if os.path.isdir(script_dir):
+                    shutil.rmtree(script_dir)
+                    write(script_dir, "not a directory any more")
+            elif os.path.isdir(script_dir):
+                if f == "script_syntax_error":
+                    write(script_path, "class (:\n")
+                elif f == "script_raises_on_import":
+                    write(script_path, script(ver, module_level="raise KeyError('scripted import failure')"))
+                elif f == "script_hook_now_raises":
+                    write(script_path, script(ver, hook_body="raise ValueError('scripted hook failure')"))
+                elif f == "script_unload_raises":
+                    write(script_path, script(ver, unload_body='raise ValueError("scripted unload")'))
+                elif f == "script_init_raises":
+                    write(script_path, script(ver, init_body="raise ValueError('scripted init failure')"))
+                elif f == "script_repaired":
+                    write(script_path, script(ver))
+        apply_fault(fault, "v2")
         for stage in ("after-1", "after-2", "after-3"):
             if not one_message(stage):
                 return
             if any(v == "v2" for (v, _) in builtins._hv_c07_script_log):
                 ctx.count("script_reloads_observed")
+        if second_fault is not None:
+            # things keep happening to the files: a second change after the first (including the author repairing the script)
+            apply_fault(second_fault, "v3")
+            for stage in ("second-1", "second-2"):
+                if not one_message(stage):
+                    return
+                if any(v == "v3" for (v, _) in builtins._hv_c07_script_log):
+                    ctx.count("script_second_reloads_observed")
+            ctx.count("script_addon_double_fault_scenarios")
         ctx.count("script_addon_scenarios")
         ctx.cover("script_faults", fault)
         if fault != "none":
             ctx.count("script_addon_faults_survived")
-        ctx.nontrivial(("script", fault, direction_in, reliable))
+        ctx.nontrivial(("script", fault, second_fault, direction_in, reliable))
         ctx.ev()
     finally:
         try:
@@ -1015,6 +1038,13 @@ def run(ctx):
     for fault in SCRIPT_FAULTS:
         for d in (False, True):
             others.append(("script", fault, d, fault in ("dep_dir_becomes_file", "script_syntax_error", "script_deleted")))
+    seconds = SCRIPT_FAULTS[1:] + ["script_repaired"]
+    pairs = [(f1, f2) for f1 in SCRIPT_FAULTS[1:] for f2 in seconds if f1 != f2 and f2 != "script_repaired"]
+    import random as _random
+    _random.Random(ctx.seed).shuffle(pairs)      # (the same list in every shard)
+    pairs = [(f1, "script_repaired") for f1 in SCRIPT_FAULTS[1:]] + pairs
+    for k, (f1, f2) in enumerate(pairs[:ctx.pick(24, len(pairs))]):
+        others.append(("script", f1, bool(k % 2), bool(k % 3 == 0), f2))
     for i, o in enumerate(others):
         if not ctx.mine(i):
             continue
@@ -1056,6 +1086,6 @@ def replay(ctx, w):
     if w.get("hook") == "handle_lludp_message":
         check_lludp_scenario(ctx, tuple(w["behaviours"]), w["direction"] == "in", w["reliable"])
     elif "fault" in w:
-        check_script_addons(ctx, w["fault"], w["direction"] == "in", w["reliable"])
+        check_script_addons(ctx, w["fault"], w["direction"] == "in", w["reliable"], w.get("second_fault"))
     elif "ops" in w:
         check_ownership(ctx, tuple(w["ops"]), Direction[w["direction"]], w["reliable"])
